@@ -59,9 +59,73 @@ MUTATIONS += [
     ("C12", "adv-uninitialised-window-without-echo-starts-over", [("@patch", A + "C12_miss3.diff", 3)]),
 ]
 
+# -- extension round (forged/tampered traffic, window arithmetic at real sizes, Echo recovery orderings, responses) --
+_TOO_SHORT = """            raise ProtectionInvalid("Ciphertext too short")
+"""
+_RESP_PIV = """            seqno = int.from_bytes(partial_iv_short, "big")
+
+            if not is_response:
+"""
+MUTATIONS += [
+    # part 4: a response (own Partial IV) strikes its number out of the REQUEST window (seeded C11-seed3)
+    ("C12", "ext-response-strikes-out-request-window", [(OS, "        if not is_response and seqno is not None and replay_error is None:\n            self.recipient_replay_window.strike_out(seqno)\n\n        # FIXME add options", "        if seqno is not None and replay_error is None:\n            self.recipient_replay_window.strike_out(seqno)\n\n        # FIXME add options")]),
+    # ... the quiet variant: only when the window would take it (no exception on late or early responses)
+    (
+        "C12",
+        "ext-response-strikes-out-when-valid",
+        [
+            (
+                OS,
+                "        if not is_response and seqno is not None and replay_error is None:\n            self.recipient_replay_window.strike_out(seqno)\n\n        # FIXME add options",
+                "        if seqno is not None and replay_error is None and (not is_response or (self.recipient_replay_window.is_initialized() and self.recipient_replay_window.is_valid(seqno))):\n            self.recipient_replay_window.strike_out(seqno)\n\n        # FIXME add options",
+            )
+        ],
+    ),
+    # part 1: a forged RESPONSE initialises the uninitialised window (before authentication)
+    (
+        "C12",
+        "ext-forged-response-initialises-window",
+        [
+            (
+                OS,
+                _RESP_PIV,
+                '            seqno = int.from_bytes(partial_iv_short, "big")\n\n'
+                "            if is_response and not self.recipient_replay_window.is_initialized() and self.echo_recovery is not None:\n"
+                "                self.recipient_replay_window.initialize_from_freshlyseen(seqno)\n\n"
+                "            if not is_response:\n",
+            )
+        ],
+    ),
+    # part 1: a message with a truncated ciphertext burns its sequence number
+    (
+        "C12",
+        "ext-short-ciphertext-burns-number",
+        [
+            (
+                OS,
+                _TOO_SHORT,
+                "            if not is_response and seqno is not None and replay_error is None:\n"
+                "                self.recipient_replay_window.strike_out(seqno)\n" + _TOO_SHORT,
+            )
+        ],
+    ),
+    # part 2: only visible at the real window size: bit 31 of the bitfield is lost
+    ("C12", "ext-bitfield-masked-to-31-bits", [(OS, "        self._bitfield |= 1 << (number - self._index)\n", "        self._bitfield |= 1 << (number - self._index)\n        self._bitfield &= 0x7FFFFFFF\n")]),
+    # part 2: only visible next to 2^40-1: the index is kept in 32 bits
+    ("C12", "ext-index-wraps-at-32-bits", [(OS, "            self._index += overshoot\n", "            self._index = (self._index + overshoot) & 0xFFFFFFFF\n")]),
+    # part 3: the Echo value is compared as a prefix (a truncated value passes)
+    (
+        "C12",
+        "ext-echo-compared-as-prefix",
+        [(OS, "                if unprotected_message.opt.echo == self.echo_recovery:\n", "                if unprotected_message.opt.echo is not None and self.echo_recovery.startswith(unprotected_message.opt.echo):\n")],
+    ),
+]
+
 CONTROLS = [
     # bit `size` of the bitfield is never set, so `>` instead of `>=` changes nothing
     ("C12", "is-valid-upper-boundary-gt", [(OS, "        if number >= self._index + self._size:\n", "        if number > self._index + self._size:\n")]),
     ("C12", "window-attributes-renamed", _rename_window_attributes()),
+    # behaviour-preserving: the error text for a short ciphertext
+    ("C12", "ext-short-ciphertext-message-changed", [(OS, '            raise ProtectionInvalid("Ciphertext too short")\n', '            raise ProtectionInvalid("Ciphertext shorter than its tag")\n')]),
     ("C12", "replay-error-message-changed", [(OS, 'replay_error = ReplayError("Sequence number was reused")', 'replay_error = ReplayError("Replay detected")')]),
 ]
